@@ -346,6 +346,24 @@ fn run_history(front: Front, reg: regions::Reg, start: u32, steps: &[Step], faul
                 ctx(json!({"frame": hex(bytes), "counter": u.fcnt, "decrypted": hex(&u.plain), "sent": hex(&want)})),
             );
         }
+        // a MAC-only uplink on port 0 carries the queued answers as its FRMPayload: under the counter the
+        // MIC verifies with it must decrypt to a well-formed sequence of MAC answers (a keystream of another
+        // counter leaves noise, which parses as one only by accident: no false alarm is possible, and over
+        // the many port-0 uplinks of a run a wrong counter does not go unnoticed)
+        if u.view.f_port == Some(0) && !u.plain.is_empty() {
+            col.event("port0_payloads_decrypted");
+            let ok = match parse_uplink_cmds(&u.plain) {
+                Ok(cmds) => cmds.iter().all(|(cid, _)| matches!(cid, 0x02..=0x0A | 0x0D)),
+                Err(_) => false,
+            };
+            if !ok {
+                col.violation(
+                    &format!("C06|port0-payload-not-encrypted-under-the-mic-counter|{}|start={}", fname, start_class(start)),
+                    "the MIC verifies under a full counter under which the port-0 FRMPayload does not decrypt to a sequence of MAC answers",
+                    ctx(json!({"frame": hex(bytes), "counter": u.fcnt, "decrypted": hex(&u.plain)})),
+                );
+            }
+        }
         if let Some((pc, pb)) = &prev {
             if pc >> 16 != u.fcnt >> 16 {
                 col.event("counter_crossed_16bit");
